@@ -163,6 +163,10 @@ structure ValidFacts (s : MuxState) : Prop where
   ch1 : 1 ≤ (canvasSize s).2
   ch2 : (canvasSize s).2 ≤ 16777216
   area : (canvasSize s).1 * (canvasSize s).2 < 1073741824
+  icc : (s.iccData.getD []).length ≤ Webp.Impl.Parser.maxMetadataSize
+  exif : (s.exifData.getD []).length ≤ Webp.Impl.Parser.maxMetadataSize
+  xmp : (s.xmpData.getD []).length ≤ Webp.Impl.Parser.maxMetadataSize
+  flen : ∀ f ∈ s.frames, f.data.length ≤ 4294967274
   frames : ∀ f ∈ s.frames, FrameBounds (canvasSize s).1 (canvasSize s).2 f
 
 theorem validate_facts {s : MuxState} (hv : validate s = .ok ()) : ValidFacts s := by
@@ -173,29 +177,47 @@ theorem validate_facts {s : MuxState} (hv : validate s = .ok ()) : ValidFacts s 
   · simp at hv
   · split at hv
     · simp at hv
-    · split at hv
+    · rename_i hmeta
+      split at hv
       · simp at hv
-      · simp only at hv
+      · rename_i hfl
         split at hv
         · simp at hv
-        · rename_i hc
-          split at hv
+        · split at hv
           · simp at hv
-          · rename_i ha
-            have h1 : u64 (canvasSize s).1 = (canvasSize s).1.toNat := by unfold u64; omega
-            have h2 : u64 (canvasSize s).2 = (canvasSize s).2.toNat := by unfold u64; omega
-            have hA : (canvasSize s).1.toNat * (canvasSize s).2.toNat < 1073741824 := by
-              have hle : (canvasSize s).1.toNat * (canvasSize s).2.toNat ≤ 16777216 * 16777216 :=
-                Nat.mul_le_mul (by omega) (by omega)
-              have hna : ¬ ((u64 (canvasSize s).1 * u64 (canvasSize s).2) % 18446744073709551616 ≥
-                  Webp.Impl.Parser.maxImageArea) := fun h => ha ⟨trivial, h⟩
-              rw [h1, h2] at hna
-              simp only [Webp.Impl.Parser.maxImageArea] at hna
-              omega
-            have e1 : (((canvasSize s).1.toNat : Nat) : Int) = (canvasSize s).1 := Int.toNat_of_nonneg (by omega)
-            have e2 : (((canvasSize s).2.toNat : Nat) : Int) = (canvasSize s).2 := Int.toNat_of_nonneg (by omega)
-            have hAi : (canvasSize s).1 * (canvasSize s).2 < 1073741824 := by
-              rw [← e1, ← e2, ← Int.natCast_mul]; omega
-            exact ⟨hp.1, by omega, hp.2, by omega, hAi, validateFrames_ok _ _ _ hv⟩
+          · simp only at hv
+            split at hv
+            · simp at hv
+            · rename_i hc
+              split at hv
+              · simp at hv
+              · rename_i ha
+                have hmd : ¬ ((s.iccData.getD []).length > Webp.Impl.Parser.maxMetadataSize ∨
+                    (s.exifData.getD []).length > Webp.Impl.Parser.maxMetadataSize ∨
+                    (s.xmpData.getD []).length > Webp.Impl.Parser.maxMetadataSize) := fun h => hmeta ⟨rfl, h⟩
+                have hfd : ∀ f ∈ s.frames, f.data.length ≤ 4294967274 := by
+                  intro f hf
+                  have hn : ¬ ((s.frames.any fun f => decide (f.data.length > maxFrameData)) = true) :=
+                    fun h => hfl ⟨rfl, h⟩
+                  simp only [List.any_eq_true, decide_eq_true_eq, not_exists, not_and] at hn
+                  have := hn f hf
+                  simp only [maxFrameData] at this
+                  omega
+                have h1 : u64 (canvasSize s).1 = (canvasSize s).1.toNat := by unfold u64; omega
+                have h2 : u64 (canvasSize s).2 = (canvasSize s).2.toNat := by unfold u64; omega
+                have hA : (canvasSize s).1.toNat * (canvasSize s).2.toNat < 1073741824 := by
+                  have hle : (canvasSize s).1.toNat * (canvasSize s).2.toNat ≤ 16777216 * 16777216 :=
+                    Nat.mul_le_mul (by omega) (by omega)
+                  have hna : ¬ ((u64 (canvasSize s).1 * u64 (canvasSize s).2) % 18446744073709551616 ≥
+                      Webp.Impl.Parser.maxImageArea) := fun h => ha ⟨trivial, h⟩
+                  rw [h1, h2] at hna
+                  simp only [Webp.Impl.Parser.maxImageArea] at hna
+                  omega
+                have e1 : (((canvasSize s).1.toNat : Nat) : Int) = (canvasSize s).1 := Int.toNat_of_nonneg (by omega)
+                have e2 : (((canvasSize s).2.toNat : Nat) : Int) = (canvasSize s).2 := Int.toNat_of_nonneg (by omega)
+                have hAi : (canvasSize s).1 * (canvasSize s).2 < 1073741824 := by
+                  rw [← e1, ← e2, ← Int.natCast_mul]; omega
+                exact ⟨hp.1, by omega, hp.2, by omega, hAi, by omega, by omega, by omega, hfd,
+                  validateFrames_ok _ _ _ hv⟩
 
 end Webp.Proofs.MuxValidate
